@@ -340,6 +340,7 @@ fn skip<'a>(
     iter: &mut dyn Iterator<Item = (usize, &'a str)>,
     context: &ParseContext,
     ni: NextItem,
+    live_elif: &mut bool,
 ) -> Option<(usize, &'a str)> {
     let mut scoup_count = 0;
     match ni {
@@ -390,6 +391,8 @@ fn skip<'a>(
                                         }
                                     } else if scoup_count == 0 {
                                         ret = if directive == Directive::ElIf {
+                                            // found while looking for the arm to assemble
+                                            *live_elif = true;
                                             Some((num, line))
                                         } else {
                                             iter.next()
@@ -424,10 +427,10 @@ pub fn parse_iter<'a>(
     let mut next_item = NextItem::NewLine;
 
     loop {
-        if let Some((line_num, line)) = skip(iter, context, next_item) {
-            // an .elif found while skipping an unselected arm is a live condition; one that is
-            // reached by running off the end of the selected arm closes the conditional
-            let skipped_to_here = next_item == NextItem::EndIf;
+        // an .elif found while skipping an unselected arm is a live condition; one that is
+        // reached by running off the end of the selected arm closes the conditional
+        let mut skipped_to_here = false;
+        if let Some((line_num, line)) = skip(iter, context, next_item, &mut skipped_to_here) {
             next_item = NextItem::NewLine; // clear conditional flag to typical state
             let line_num = line_num + 1;
             #[cfg(feature = "verif-hooks")]
